@@ -352,7 +352,8 @@ func atomicOpWidth(f binaryExprFunc, i instruction, addrW, opW expr.Width) []exp
 }
 
 func csrKey(i instruction) expr.Key {
-	csrNum, _ := immTypeI.parseValue(i.value)
+	// CSR number is an unsigned 12 bit value, not a signed immediate.
+	csrNum := parseBitRange(i.value, 20, 32)
 	return expr.Key(csr(csrNum).String())
 }
 
